@@ -138,6 +138,7 @@ type popReply struct {
 	Pairs    []popPair
 	BadLines int // body lines (or a first line) that should carry numbers and do not
 	First    string
+	Body     []string // parse == "capa": the body lines
 }
 
 var (
@@ -218,6 +219,9 @@ func readPopReply(c net.Conn, br *bufio.Reader, timeout time.Duration, multi boo
 		if l == ".\r\n" {
 			rp.Term = true
 			return rp
+		}
+		if parse == "capa" {
+			rp.Body = append(rp.Body, l)
 		}
 		if parse == "list" || parse == "uidl" {
 			if m := popPairRe.FindStringSubmatch(strings.TrimSuffix(l, "\r\n")); m != nil && strings.HasSuffix(l, "\r\n") {
